@@ -86,6 +86,8 @@ package witness
 //@ ensures [nothing-is-stored-unless-the-candidate-parsed-and-verified] st0.called || st1.called ==> pn.called && pn.res1 == nil
 //@ ensures [first-sth-is-trusted-only-when-nothing-is-held] st0.called ==> gl.res1 != nil && sc.res == 5
 //@ ensures [a-later-sth-is-stored-only-as-a-proved-extension] st1.called ==> gl.res1 == nil && pp.res1 == nil && pn.res0.TreeSize > pp.res0.TreeSize && vc.called && vc.res == nil
+//@ ensures [a-proved-extension-of-the-held-sth-is-stored] vc.called && vc.res == nil ==> st1.called
+//@ ensures [the-first-valid-sth-for-a-log-is-stored] has(w.Logs, logID) && pn.called && pn.res1 == nil && gl.called && gl.res1 != nil && sc.res == 5 ==> st0.called
 //@ ensures [stale-sth-refused-with-the-held-one] pp.called && pp.res1 == nil && pn.res0.TreeSize < pp.res0.TreeSize ==> result0 == gl.res0 && result1 != nil && grpcCode(result1) == 9 && !st0.called && !st1.called
 //@ ensures [same-size-different-root-refused-with-the-held-one] pp.called && pp.res1 == nil && pn.res0.TreeSize == pp.res0.TreeSize && !eq.res ==> result0 == gl.res0 && result1 != nil && grpcCode(result1) == 9 && !st0.called && !st1.called
 //@ ensures [same-sth-is-a-no-op-answered-with-the-held-one] pp.called && pp.res1 == nil && pn.res0.TreeSize == pp.res0.TreeSize && eq.res ==> result0 == gl.res0 && result1 == nil && !st0.called && !st1.called
